@@ -3,9 +3,38 @@
 //! cases.json: JSON array of case objects; obs.json: JSON array of observations (same order).
 mod util;
 mod c03;
+mod c12;
+mod eng;
+mod stack;
 
 use serde_json::Value;
 use std::fs;
+
+/// run cases on `n` OS threads (each scenario builds its own runtime), keeping order
+fn run_parallel(cases: &[Value], f: fn(&Value) -> Value, n: usize) -> Vec<Value> {
+  use std::sync::{Arc, Mutex};
+  let n = std::env::var("VH_THREADS").ok().and_then(|s| s.parse().ok()).unwrap_or(n);
+  let out: Arc<Mutex<Vec<Option<Value>>>> = Arc::new(Mutex::new(vec![None; cases.len()]));
+  let next = Arc::new(std::sync::atomic::AtomicUsize::new(0));
+  let cases: Arc<Vec<Value>> = Arc::new(cases.to_vec());
+  let mut hs = Vec::new();
+  for _ in 0..n.max(1) {
+    let (out, next, cases) = (out.clone(), next.clone(), cases.clone());
+    hs.push(std::thread::spawn(move || loop {
+      let i = next.fetch_add(1, std::sync::atomic::Ordering::SeqCst);
+      if i >= cases.len() {
+        break;
+      }
+      let v = f(&cases[i]);
+      out.lock().unwrap()[i] = Some(v);
+    }));
+  }
+  for h in hs {
+    let _ = h.join();
+  }
+  let g = out.lock().unwrap();
+  g.iter().map(|x| x.clone().unwrap_or(serde_json::json!({"rows": [[95]]}))).collect()
+}
 
 fn main() {
   let args: Vec<String> = std::env::args().collect();
@@ -19,6 +48,9 @@ fn main() {
   let cases = cases.as_array().expect("cases array");
   let obs: Vec<Value> = match args[1].as_str() {
     "c03" => cases.iter().map(c03::run_case).collect(),
+    "eng" => cases.iter().map(eng::run_case).collect(),
+    "c12" => cases.iter().map(c12::run_case).collect(),
+    "stack" => run_parallel(cases, stack::run_case, 8),
     other => {
       eprintln!("unknown subcommand {other}");
       std::process::exit(2);
